@@ -47,12 +47,17 @@ def generate(rng, tier):
     actors = []
     n_prod = rng.randint(1, 3)
     n_cons = rng.randint(1, 4)
+    twins = [1, 1.0, True, 0, 0.0, False, 2, 2.0, 3, 3.0, 4, 4.0] if rng.random() < 0.12 else None
+    if twins:
+        rng.shuffle(twins)        # items that compare equal without being the same item
     for p in range(n_prod):
         ops = []
         _gap(rng, ops)
         for j in range(rng.randint(1, 4)):
             value = p * 100 + j
-            if value in (0, 1, 101) and rng.random() < 0.5:
+            if twins:
+                value = twins.pop()
+            elif value in (0, 1, 101) and rng.random() < 0.5:
                 value = {0: 0, 1: None, 101: ""}[value]      # falsy and None are legal messages
             ops.append({"op": "put", "on": "Q", "v": value})
             _gap(rng, ops)
@@ -119,6 +124,29 @@ def explore(case, base, rng, tier, one):
 
 
 SIGNALS = {"cancel": "CancelTask", "interrupt": "CancelScope", "close": "GeneratorExit"}
+
+
+class _Item:
+    """An item as the model knows it: equal only to an item of the same type and value (1, 1.0
+    and True are three different messages although they compare equal)."""
+    __slots__ = ("value",)
+
+    def __init__(self, value):
+        self.value = value
+
+    def _key(self):
+        return (type(self.value).__name__, self.value)
+
+    def __eq__(self, other):
+        return isinstance(other, _Item) and self._key() == other._key()
+
+    def __hash__(self):
+        return hash(self._key())
+
+    def __repr__(self):
+        return repr(self.value)
+
+
 WAIT_START = ("get+", "iter+", "iter.next")
 WAIT_END = ("get-", "get.closed", "get!", "iter.item", "iter-", "iter!")
 
@@ -191,7 +219,7 @@ def _check_one(rec, qname):
             excs[actor] = ev[5]
             waiting.pop(actor, None)
         elif kind == "put+":
-            value = ev[6]
+            value = _Item(ev[6])
             pending_put[actor] = value
             if not closed:
                 buffer.append([value, False])
@@ -200,11 +228,11 @@ def _check_one(rec, qname):
                 put_seen[value] = "refused"
         elif kind == "put-":
             pending_put.pop(actor, None)
-            if put_seen.get(ev[6]) == "refused":
+            if put_seen.get(_Item(ev[6])) == "refused":
                 bad("put-after-close-accepted", "put(%r) on a closed queue returned" % ev[6])
         elif kind == "put.closed":
             pending_put.pop(actor, None)
-            if put_seen.get(ev[6]) != "refused":
+            if put_seen.get(_Item(ev[6])) != "refused":
                 bad("put-refused-while-open", "put(%r) raised StreamClosed on an open queue"
                     % ev[6])
         elif kind == "put!":
@@ -220,7 +248,7 @@ def _check_one(rec, qname):
             if kind != "iter+" or _iter_will_wait(rec, actor, tick):
                 waiting[actor] = tick
         elif kind in ("get-", "iter.item"):
-            value = ev[6]
+            value = _Item(ev[6])
             began = waiting.pop(actor, None)
             if value in received:
                 bad("duplicate", "%r delivered to %s and again to %s"
